@@ -10,6 +10,7 @@
   Clauses of the property and the theorems that cover them
     what one side writes the other reads ........ discovery_roundtrip, frame_roundtrip (induction over message sequences)
     authenticated (identified remote key) ....... discovery_authenticated
+    endpoint proof before amplification ......... findnode_served_only_after_verified_pong
     any bit flipped is detected before delivery . discovery_tamper_detected, discovery_hash_tamper_detected,
                                                   frame_tamper_detected_partial, frame_single_byte_tamper_detected,
                                                   frame_truncation_rejected
@@ -285,6 +286,50 @@ theorem discovery_decode_alloc_bounded (bs : Bytes) :
 
 /-- non-vacuity: a 200-byte string header followed by 3 bytes allocates nothing; a fitting one allocates its size. -/
 example : rBytesAlloc [0xb8, 200, 1, 2, 3] = 0 ∧ rBytesAlloc [0x83, 1, 2, 3] = 3 ∧ rRawAlloc [0xc2, 1, 2, 9] = 3 := by decide
+
+/-! ## Discovery endpoint proof -/
+
+/-- `findnode_served_only_after_verified_pong`: over every history of discovery events from any state, if a findnode
+    from `id` is served at the end (the node answers with NEIGHBORS, an amplification towards the claimed source), then
+    either `id` was bonded in the starting state, or the history contains a pong from `id` whose ReplyTok matched a ping
+    we had sent to `id` and that was still pending — pings received from `id`, pongs with another ReplyTok, and timeouts
+    of our own ping never create a bond. -/
+theorem findnode_served_only_after_verified_pong (s : BondSt) (evs : List DEv) (id : Bytes)
+    (h : findnodeServed (bondRun s evs) id = true) :
+    findnodeServed s id = true ∨
+    ∃ pre tok post, evs = pre ++ DEv.pongRecv id tok :: post ∧ (bondRun s pre).pending.contains (id, tok) = true := by
+  induction evs generalizing s with
+  | nil => left; exact h
+  | cons e es ih =>
+    have h' : findnodeServed (bondRun (bondStep s e) es) id = true := h
+    rcases ih (bondStep s e) h' with h1 | ⟨pre, tok, post, he, hp⟩
+    · -- bonded right after `e`
+      cases e with
+      | pingSent i t => left; simpa [bondStep, findnodeServed] using h1
+      | pingTimeout i => left; simpa [bondStep, findnodeServed] using h1
+      | pingRecv i => left; simpa [bondStep, findnodeServed] using h1
+      | findnode i => left; simpa [bondStep, findnodeServed] using h1
+      | pongRecv i t =>
+        by_cases hc : s.pending.contains (i, t) = true
+        · simp only [bondStep, hc, if_true, findnodeServed, List.contains_cons, Bool.or_eq_true] at h1
+          rcases h1 with h1 | h1
+          · right
+            have hi : id = i := by simpa using h1
+            exact ⟨[], t, es, by rw [hi]; rfl, by rw [hi]; exact hc⟩
+          · left; exact h1
+        · left
+          simp only [bondStep, hc] at h1
+          simpa using h1
+    · right
+      exact ⟨e :: pre, tok, post, by rw [he]; rfl, hp⟩
+
+/-- non-vacuity and the seeded history: ping received, our ping-back sent and timed out, findnode ⇒ refused; with a
+    matching pong ⇒ served; with a pong carrying another token ⇒ refused. -/
+example :
+    findnodeServed (bondRun {} [.pingRecv [1], .pingSent [1] [7], .pingTimeout [1], .findnode [1]]) [1] = false ∧
+    findnodeServed (bondRun {} [.pingRecv [1], .pingSent [1] [7], .pongRecv [1] [7], .findnode [1]]) [1] = true ∧
+    findnodeServed (bondRun {} [.pingRecv [1], .pingSent [1] [7], .pongRecv [1] [8], .pingTimeout [1], .findnode [1]]) [1] = false ∧
+    findnodeServed (bondRun {} [.pingSent [1] [7], .pongRecv [2] [7], .findnode [2]]) [2] = false := by decide
 
 /-! ## RLPx frames -/
 
